@@ -3,7 +3,8 @@
    loop over an explicit stack of suspended branch iterators, resumed once per `next()` call;
    Model/EngineStack.v is a literal model of it.  C01–C04, C14, C15 are proved over the recursive
    functions `dfs` (Model/Search.v) and `dfs_lim` (Model/Limits.v).  These theorems close the gap:
-   for every scheduler, mode, check interval, clock and memory limit, and every propagator list
+   for every scheduler, mode, check interval, clock, memory limit and propagation-deadline oracle
+   (`giveup`, Model/Limits.v), and every propagator list
    and store (no contract needed), the machine yields the same solutions in the same order, ends
    with the same mode state, the same iteration / check counters, the same stop reason and the
    same stack depth as the recursion.  Statements only. *)
@@ -17,33 +18,33 @@ Require Import Selen.Proofs.EngineStackProofs.
    (search_lim does that tick before calling dfs_lim).  One call per solution plus the final one,
    and engine_fuel fuel = 4 * 2^fuel - 3 loop steps per call, always suffice. *)
 Theorem engine_run_refines_dfs_lim :
-  forall pick m interval clock mlimit fuel ps s best l l1 sols b l' why d calls fuel',
+  forall pick m interval clock mlimit giveup fuel ps s best l l1 sols b l' why d calls fuel',
   tick interval clock mlimit 0 l = inl l1 ->
-  dfs_lim pick m interval clock mlimit true fuel 0 ps s best l1 = LStop sols b l' why d ->
+  dfs_lim pick m interval clock mlimit giveup true fuel 0 ps s best l1 = LStop sols b l' why d ->
   (S (length sols) <= calls)%nat -> (engine_fuel fuel <= fuel')%nat ->
-  lres_of (engine_run pick m interval clock mlimit calls fuel' (engine_start ps s best l))
+  lres_of (engine_run pick m interval clock mlimit giveup calls fuel' (engine_start ps s best l))
   = LStop sols b l' why d.
 Proof. exact EngineStackProofs.engine_run_refines_dfs_lim. Qed.
 Print Assumptions engine_run_refines_dfs_lim.
 
 (* Model::solve: a single call of next() *)
 Theorem engine_first_refines_dfs_lim :
-  forall pick m interval clock mlimit fuel ps s best l l1 sols b l' why d fuel',
+  forall pick m interval clock mlimit giveup fuel ps s best l l1 sols b l' why d fuel',
   tick interval clock mlimit 0 l = inl l1 ->
-  dfs_lim pick m interval clock mlimit false fuel 0 ps s best l1 = LStop sols b l' why d ->
+  dfs_lim pick m interval clock mlimit giveup false fuel 0 ps s best l1 = LStop sols b l' why d ->
   (engine_fuel fuel <= fuel')%nat ->
-  lres_of (engine_first pick m interval clock mlimit fuel' (engine_start ps s best l))
+  lres_of (engine_first pick m interval clock mlimit giveup fuel' (engine_start ps s best l))
   = LStop sols b l' why d.
 Proof. exact EngineStackProofs.engine_first_refines_dfs_lim. Qed.
 Print Assumptions engine_first_refines_dfs_lim.
 
 (* a limit seen at the very first check stops both before anything is explored *)
 Theorem engine_first_check :
-  forall pick m interval clock mlimit ps s best l w l' calls fuel,
+  forall pick m interval clock mlimit giveup ps s best l w l' calls fuel,
   tick interval clock mlimit 0 l = inr (w, l') ->
-  lres_of (engine_run pick m interval clock mlimit (S calls) fuel (engine_start ps s best l))
+  lres_of (engine_run pick m interval clock mlimit giveup (S calls) fuel (engine_start ps s best l))
   = LStop [] best l' (SLimit w) 0 /\
-  lres_of (engine_first pick m interval clock mlimit fuel (engine_start ps s best l))
+  lres_of (engine_first pick m interval clock mlimit giveup fuel (engine_start ps s best l))
   = LStop [] best l' (SLimit w) 0.
 Proof.
   intros. split.
@@ -54,30 +55,52 @@ Print Assumptions engine_first_check.
 
 (* whenever neither runs out of fuel, with whatever fuels, they agree *)
 Theorem engine_run_agrees_dfs_lim :
-  forall pick m interval clock mlimit fuel calls fuel' ps s best l l1 r,
+  forall pick m interval clock mlimit giveup fuel calls fuel' ps s best l l1 r,
   tick interval clock mlimit 0 l = inl l1 ->
-  dfs_lim pick m interval clock mlimit true fuel 0 ps s best l1 <> LFuel ->
-  engine_run pick m interval clock mlimit calls fuel' (engine_start ps s best l) = r -> r <> RFuel ->
-  lres_of r = dfs_lim pick m interval clock mlimit true fuel 0 ps s best l1.
+  dfs_lim pick m interval clock mlimit giveup true fuel 0 ps s best l1 <> LFuel ->
+  engine_run pick m interval clock mlimit giveup calls fuel' (engine_start ps s best l) = r -> r <> RFuel ->
+  lres_of r = dfs_lim pick m interval clock mlimit giveup true fuel 0 ps s best l1.
 Proof. exact EngineStackProofs.engine_run_agrees_dfs_lim. Qed.
 Print Assumptions engine_run_agrees_dfs_lim.
 
 Theorem engine_first_agrees_dfs_lim :
-  forall pick m interval clock mlimit fuel fuel' ps s best l l1 r,
+  forall pick m interval clock mlimit giveup fuel fuel' ps s best l l1 r,
   tick interval clock mlimit 0 l = inl l1 ->
-  dfs_lim pick m interval clock mlimit false fuel 0 ps s best l1 <> LFuel ->
-  engine_first pick m interval clock mlimit fuel' (engine_start ps s best l) = r -> r <> RFuel ->
-  lres_of r = dfs_lim pick m interval clock mlimit false fuel 0 ps s best l1.
+  dfs_lim pick m interval clock mlimit giveup false fuel 0 ps s best l1 <> LFuel ->
+  engine_first pick m interval clock mlimit giveup fuel' (engine_start ps s best l) = r -> r <> RFuel ->
+  lres_of r = dfs_lim pick m interval clock mlimit giveup false fuel 0 ps s best l1.
 Proof. exact EngineStackProofs.engine_first_agrees_dfs_lim. Qed.
 Print Assumptions engine_first_agrees_dfs_lim.
+
+(* the repair limits_deep at the level of the machine: an evaluation of the `while` test that
+   leaves the stack one frame deeper (a descent into a stalled child) has counted an iteration and
+   passed the periodic limit test with the deeper stack; when that test fires, next() returns None
+   there.  Before the repair a descent counted nothing and tested nothing. *)
+Theorem push_passes_limit_test :
+  forall pick m interval clock mlimit giveup e e',
+  while_step pick m interval clock mlimit giveup e = WCont e' ->
+  length (stack e') = S (length (stack e)) ->
+  tick interval clock mlimit (length (stack e')) (lst e) = inl (lst e') /\
+  iters (lst e') = iters (lst e) + 1.
+Proof. exact EngineStackProofs.push_passes_limit_test. Qed.
+Print Assumptions push_passes_limit_test.
+
+Theorem push_stopped_by_limit :
+  forall pick m interval clock mlimit giveup e w e',
+  while_step pick m interval clock mlimit giveup e = WLimit w e' ->
+  length (stack e') = S (length (stack e)) ->
+  tick interval clock mlimit (length (stack e')) (lst e) = inr (w, lst e') /\
+  iters (lst e') = iters (lst e) + 1.
+Proof. exact EngineStackProofs.push_stopped_by_limit. Qed.
+Print Assumptions push_stopped_by_limit.
 
 (* the whole entry point (root propagation, then the engine) against Limits.search_lim, which is
    what solve_lim / minimize_lim / enumerate_lim of C15 are defined on *)
 Theorem engine_search_refines_search_lim :
-  forall pick m interval clock mlimit resume ps s r,
-  search_lim pick m interval clock mlimit resume ps s = r -> r <> inl LFuel ->
+  forall pick m interval clock mlimit giveup resume ps s r,
+  search_lim pick m interval clock mlimit giveup resume ps s = r -> r <> inl LFuel ->
   exists calls0 fuel0, forall calls fuel, (calls0 <= calls)%nat -> (fuel0 <= fuel)%nat ->
-    engine_search pick m interval clock mlimit resume calls fuel ps s = r.
+    engine_search pick m interval clock mlimit giveup resume calls fuel ps s = r.
 Proof. exact EngineStackProofs.engine_search_refines_search_lim. Qed.
 Print Assumptions engine_search_refines_search_lim.
 
@@ -87,7 +110,7 @@ Theorem engine_run_unlimited :
   forall pick m interval fuel ps s best l all ball calls fuel',
   dfs pick m fuel ps s best = SOk all ball ->
   (S (length all) <= calls)%nat -> (engine_fuel fuel <= fuel')%nat ->
-  exists e', engine_run pick m interval never None calls fuel' (engine_start ps s best l)
+  exists e', engine_run pick m interval never None nogiveup calls fuel' (engine_start ps s best l)
              = RStop all e' SExhausted /\ EngineStack.best e' = ball /\ stack e' = [].
 Proof. exact EngineStackProofs.engine_run_unlimited. Qed.
 Print Assumptions engine_run_unlimited.
@@ -120,7 +143,7 @@ Example c03_stack_nonvacuous :
   engine_enumerate fifo None 7 20 c03s_ps c03s_s
   = SOk [[[0];[2];[3]]; [[0];[3];[2]]; [[2];[0];[3]]; [[2];[3];[0]]; [[3];[0];[2]]; [[3];[2];[0]]] None /\
   enumerate fifo c03s_ps c03s_s = engine_enumerate fifo None 7 20 c03s_ps c03s_s /\
-  engine_trace fifo None 1 never None 30 (engine_init c03s_ps c03s_s)
+  engine_trace fifo None 1 never None nogiveup 30 (engine_init c03s_ps c03s_s)
   = [TPush; TPush; TYield; TYield; TPop; TFail; TPop; TPush; TPush; TYield; TYield; TPop;
      TPush; TPush; TYield; TFail; TPop; TYield; TPop; TPop; TEnd].
 Proof. repeat split; vm_compute; reflexivity. Qed.
@@ -130,25 +153,52 @@ Example c03_stack_minimize :
   engine_enumerate fifo (Some (VVar 2)) 4 20 c03s_ps c03s_s
   = SOk [[[0];[2];[3]]; [[0];[3];[2]]; [[2];[3];[0]]] (Some 0) /\
   search fifo (Some (VVar 2)) c03s_ps c03s_s = engine_enumerate fifo (Some (VVar 2)) 4 20 c03s_ps c03s_s /\
-  engine_trace fifo (Some (VVar 2)) 1 never None 30 (engine_init c03s_ps c03s_s)
+  engine_trace fifo (Some (VVar 2)) 1 never None nogiveup 30 (engine_init c03s_ps c03s_s)
   = [TPush; TPush; TYield; TYield; TPop; TFail; TPop; TPush; TYield; TFail; TPop; TEnd].
 Proof. repeat split; vm_compute; reflexivity. Qed.
 
-(* limits: a check every 2 iterations, the clock expired from the 4th check on: both stop after
-   four solutions, on the pop that brings the stack back to depth 1, with the same counters *)
+(* limits: a check every 2 iterations (pushes count), the clock expired from the 6th check on: both
+   stop after four solutions, on the pop that brings the stack back to depth 1, with the same counters *)
 Example c03_stack_limited :
-  engine_search fifo None 2 (from_check 4) None true 5 20 c03s_ps c03s_s
-  = inl (LStop [[[0];[2];[3]]; [[0];[3];[2]]; [[2];[0];[3]]; [[2];[3];[0]]] None (mkl 8 4) (SLimit LTimeout) 1) /\
-  search_lim fifo None 2 (from_check 4) None true c03s_ps c03s_s
-  = engine_search fifo None 2 (from_check 4) None true 5 20 c03s_ps c03s_s /\
-  engine_trace fifo None 2 (from_check 4) None 30 (engine_init c03s_ps c03s_s)
+  engine_search fifo None 2 (from_check 6) None nogiveup true 5 20 c03s_ps c03s_s
+  = inl (LStop [[[0];[2];[3]]; [[0];[3];[2]]; [[2];[0];[3]]; [[2];[3];[0]]] None (mkl 12 6) (SLimit LTimeout) 1) /\
+  search_lim fifo None 2 (from_check 6) None nogiveup true c03s_ps c03s_s
+  = engine_search fifo None 2 (from_check 6) None nogiveup true 5 20 c03s_ps c03s_s /\
+  engine_trace fifo None 2 (from_check 6) None nogiveup 30 (engine_init c03s_ps c03s_s)
   = [TPush; TPush; TYield; TYield; TPop; TFail; TPop; TPush; TPush; TYield; TYield; TPop; TLimit].
 Proof. repeat split; vm_compute; reflexivity. Qed.
 
-(* Model::solve: one call, the consumer stops at the first solution with two iterators suspended *)
+(* ... expired from the 4th check on: both stop after two solutions ON A DESCENT (the push that takes
+   the stack from depth 0 to depth 1 is the 8th counted step), with the child already pushed *)
+Example c03_stack_limited_on_descent :
+  engine_search fifo None 2 (from_check 4) None nogiveup true 5 20 c03s_ps c03s_s
+  = inl (LStop [[[0];[2];[3]]; [[0];[3];[2]]] None (mkl 8 4) (SLimit LTimeout) 1) /\
+  search_lim fifo None 2 (from_check 4) None nogiveup true c03s_ps c03s_s
+  = engine_search fifo None 2 (from_check 4) None nogiveup true 5 20 c03s_ps c03s_s /\
+  engine_trace fifo None 2 (from_check 4) None nogiveup 30 (engine_init c03s_ps c03s_s)
+  = [TPush; TPush; TYield; TYield; TPop; TFail; TPop; TPush; TLimit].
+Proof. repeat split; vm_compute; reflexivity. Qed.
+
+(* a propagation given up at the deadline (oracle: the child spaces with 6 propagators whose first
+   variable has minimum 2): after two solutions the engine descends into x0 > 1 (push), the
+   propagation of the next child is given up and next() returns None with that frame on the stack;
+   machine and recursion agree on everything (check at every step: 8 steps, 8 checks) *)
+Definition c03s_giveup : list prop -> store -> bool :=
+  fun ps s => (length ps =? 6)%nat && (hd 0 (nth 0 s []) =? 2).
+Example c03_stack_giveup :
+  engine_search fifo None 1 never None c03s_giveup true 5 20 c03s_ps c03s_s
+  = inl (LStop [[[0];[2];[3]]; [[0];[3];[2]]] None (mkl 8 8) (SLimit LTimeout) 1) /\
+  search_lim fifo None 1 never None c03s_giveup true c03s_ps c03s_s
+  = engine_search fifo None 1 never None c03s_giveup true 5 20 c03s_ps c03s_s /\
+  engine_trace fifo None 1 never None c03s_giveup 30 (engine_init c03s_ps c03s_s)
+  = [TPush; TPush; TYield; TYield; TPop; TFail; TPop; TPush; TFail; TLimit].
+Proof. repeat split; vm_compute; reflexivity. Qed.
+
+(* Model::solve: one call, the consumer stops at the first solution with two iterators suspended;
+   three steps were counted (the first next() and two pushes), one of them a multiple of 3 *)
 Example c03_stack_first :
-  engine_search fifo None 3 never None false 0 20 c03s_ps c03s_s
-  = inl (LStop [[[0];[2];[3]]] None (mkl 1 0) SConsumer 2) /\
-  search_lim fifo None 3 never None false c03s_ps c03s_s
-  = engine_search fifo None 3 never None false 0 20 c03s_ps c03s_s.
+  engine_search fifo None 3 never None nogiveup false 0 20 c03s_ps c03s_s
+  = inl (LStop [[[0];[2];[3]]] None (mkl 3 1) SConsumer 2) /\
+  search_lim fifo None 3 never None nogiveup false c03s_ps c03s_s
+  = engine_search fifo None 3 never None nogiveup false 0 20 c03s_ps c03s_s.
 Proof. repeat split; vm_compute; reflexivity. Qed.
